@@ -15,6 +15,7 @@ const c15Explanation = `Decided statically on every path of xfr.go (and the send
 func checkC15(c *Ctx, r *Report) {
 	r.Explanation = c15Explanation
 	r.Trusted = []string{"go/ssa translation"}
+	readErrorNotOverwritten(c, r, "C15.R1.read-error-not-overwritten")
 	borrow(c, r, func(c *Ctx, r *Report) { readErrorKept(c, r, "C12.R1.read-error-kept") }, "C12.R1.read-error-kept", "C15.R1.read-error-kept", 1, "the error of Transfer.ReadMsg's read flows into the error it returns with the message", nil, "a transfer whose connection is cut at a record boundary of the last envelope is reported complete")
 	for _, name := range []string{"Transfer.inAxfr", "Transfer.inIxfr"} {
 		c15Loop(c, r, name)
@@ -339,7 +340,30 @@ func c15ReadMsg(c *Ctx, r *Report) {
 			if !(v.Block() == rp.Block || v.Block().Dominates(rp.Block)) {
 				continue
 			}
-			if rp.Results[1] != v {
+			// the verdict itself, or, where the verdict is known to have been nil, whatever the read left (its error
+			// stands); a value merged from several ways is looked at way by way
+			nilVerdict := Guard{Op: "eq", A: isValue(v), B: isNilConst, Holds: true}
+			var okVal func(x ssa.Value, facts []Fact, depth int) bool
+			okVal = func(x ssa.Value, facts []Fact, depth int) bool {
+				if x == ssa.Value(v) {
+					return true
+				}
+				for _, f := range facts {
+					if matchGuard(f, nilVerdict) {
+						return true
+					}
+				}
+				if phi, isPhi := x.(*ssa.Phi); isPhi && depth < 4 {
+					for i, e := range phi.Edges {
+						if !okVal(e, factsOnEdge(fn, phi.Block().Preds[i], phi.Block()), depth+1) {
+							return false
+						}
+					}
+					return true
+				}
+				return false
+			}
+			if !okVal(rp.Results[1], rp.factsOf(fn), 0) {
 				problems = append(problems, fmt.Sprintf("%s: after verification the returned error is %v, not the verifier's verdict", c.pos(rp.Pos), rp.Results[1]))
 			}
 		}
